@@ -95,6 +95,10 @@ def hook_branches(hook: Func):
                 continue
             lits = []
             for t, pol, node in c:
+                if isinstance(node, ast.Name):
+                    # a test bound to a local first: is_sample = mode_weight == '...'
+                    from ..astutil import single_defs as _sd
+                    node = _sd(hook).get(node.id, node)
                 if pol is False and isinstance(node, ast.Compare) and len(node.ops) == 1 and unparse(node.left) == "mode_weight" \
                         and isinstance(node.ops[0], (ast.Eq, ast.NotEq)) and isinstance(const(node.comparators[0]), str):
                     lits.append(const(node.comparators[0]))
@@ -241,7 +245,22 @@ def _branch_must_writes(ctx, ff: FieldFlow, hook: Func, body):
 # ------------------------------------------------------------------------------ W4
 def _w4(ctx, rep):
     hook = ctx.ix.func(LF + "weighted_probability_based_squared_error.WeightedProbabilityBasedSquaredError._set_weights_by_mode")
-    stores = [n for n in own_nodes(hook.node) if isinstance(n, ast.Assign) and len(n.targets) == 1 and isinstance(n.targets[0], ast.Subscript)]
+    def sub_stores(fn):
+        return [n for n in own_nodes(fn.node) if isinstance(n, ast.Assign) and len(n.targets) == 1 and isinstance(n.targets[0], ast.Subscript)]
+    stores = sub_stores(hook)
+    if not stores:
+        # the per-distribution computation may live in a private helper the hook calls
+        for n in own_nodes(hook.node):
+            if isinstance(n, ast.Call):
+                t = None
+                if isinstance(n.func, ast.Name):
+                    t = ctx.ix.scope_lookup(hook.module, hook, n.func.id)
+                elif isinstance(n.func, ast.Attribute) and isinstance(n.func.value, ast.Name) and n.func.value.id == hook.self_name and hook.cls is not None:
+                    t = hook.cls.lookup(n.func.attr)
+                if isinstance(t, Func) and t.name.startswith("_") and sub_stores(t):
+                    hook = t
+                    stores = sub_stores(t)
+                    break
     if not stores:
         rep.undecided("W4", hook, "stores", "no subscript store found")
         return
@@ -301,7 +320,11 @@ def _enclosing_stmts(func: Func, st):
     cur = st
     while True:
         par = getattr(cur, "_parent", None)
-        if par is None or isinstance(par, (ast.FunctionDef, ast.AsyncFunctionDef)):
+        if par is None:
+            break
+        if isinstance(par, (ast.FunctionDef, ast.AsyncFunctionDef)):
+            if cur in par.body:
+                chain = par.body[: par.body.index(cur)] + chain
             break
         for field in ("body", "orelse"):
             blk = getattr(par, field, None)
